@@ -9,8 +9,9 @@ Open Scope N_scope.
 Inductive l4proto := TCP | UDP.
 Inductive ipver := V4 | V6.
 
-(* A packet description.  Addresses are 128-bit numbers, IPv4 as ::ffff:a.b.c.d.  p_regex_hits is oracle
-   data: the regex patterns (among those written in the program) that match p_domain. *)
+(* A packet description.  Addresses are 128-bit numbers, IPv4 as ::ffff:a.b.c.d.  p_domain is the learned or sniffed
+   name as it arrives (any letter case, with or without a trailing dot; "" = no name).  p_regex_hits is oracle
+   data: the regex patterns (among those written in the program) that match the normalised name. *)
 Record packet := {
   p_src : N; p_dst : N; p_sport : N; p_dport : N;
   p_l4 : l4proto; p_ipver : ipver;
@@ -62,6 +63,22 @@ Definition domain_holds (k : dkind) (s d : string) (hits : list string) : bool :
   | DRegex => existsb (String.eqb s) hits
   end.
 
+(* Names are matched in any letter case and with or without a trailing dot: the name a domain condition is read on
+   is strings.ToLower(strings.TrimSuffix(name, ".")) — ASCII lower case, ONE trailing dot stripped. *)
+Definition dom_lower_ascii (c : ascii) : ascii :=
+  let n := N_of_ascii c in if (65 <=? n) && (n <=? 90) then ascii_of_N (n + 32) else c.
+Fixpoint dom_lower (s : string) : string :=
+  match s with EmptyString => EmptyString | String c r => String (dom_lower_ascii c) (dom_lower r) end.
+Fixpoint dom_strip_dot (s : string) : string :=
+  match s with
+  | EmptyString => EmptyString
+  | String c r => match r with
+                  | EmptyString => if Ascii.eqb c "."%char then EmptyString else s
+                  | _ => String c (dom_strip_dot r)
+                  end
+  end.
+Definition normalise (s : string) : string := dom_lower (dom_strip_dot s).
+
 Definition pad16 (bs : list N) : list N := firstn 16 (bs ++ repeat 0 16).
 
 Fixpoint list_eqb (a b : list N) : bool :=
@@ -81,7 +98,7 @@ Definition ver_eqb (a b : ipver) : bool :=
 
 Definition value_holds (k : fkind) (v : value) (pk : packet) : bool :=
   match k, v with
-  | FDomain, VDomain dk s => domain_holds dk s (p_domain pk) (p_regex_hits pk)
+  | FDomain, VDomain dk s => domain_holds dk s (normalise (p_domain pk)) (p_regex_hits pk)
   | FIp, VCidr v4 a b => cidr_contains v4 a b (p_dst pk)
   | FSip, VCidr v4 a b => cidr_contains v4 a b (p_src pk)
   | FPort, VRange lo hi => (lo <=? p_dport pk) && (p_dport pk <=? hi)
@@ -181,7 +198,16 @@ Definition groups_ok (groups : list (string * N)) : bool :=
 Definition wf_program (p : program) : bool :=
   groups_ok (pr_groups p) && forallb (rule_ok (pr_groups p)) (pr_rules p) && outbound_ok (pr_groups p) true (pr_fallback p).
 
+(* the property's name alphabet: letters, digits, '-', '_', '.' (a sniffed name with other bytes, e.g. '^', is outside
+   the quantifier; the check still compares implementation and model on it) *)
+Definition domain_char_ok (c : ascii) : bool :=
+  let n := N_of_ascii c in
+  ((97 <=? n) && (n <=? 122)) || ((65 <=? n) && (n <=? 90)) || ((48 <=? n) && (n <=? 57)) ||
+  (n =? 45) || (n =? 95) || (n =? 46).
+Fixpoint domain_alphabet_ok (s : string) : bool :=
+  match s with EmptyString => true | String c r => domain_char_ok c && domain_alphabet_ok r end.
+
 Definition wf_packet (pk : packet) : bool :=
-  (p_src pk <? 2 ^ 128) && (p_dst pk <? 2 ^ 128) && (p_sport pk <? 65536) && (p_dport pk <? 65536) &&
+  domain_alphabet_ok (p_domain pk) && (p_src pk <? 2 ^ 128) && (p_dst pk <? 2 ^ 128) && (p_sport pk <? 65536) && (p_dport pk <? 65536) &&
   Nat.eqb (List.length (p_pname pk)) 16 && forallb (fun b => b <? 256) (p_pname pk) &&
   (p_mac pk <? 2 ^ 48) && (p_dscp pk <? 256).
